@@ -378,6 +378,16 @@ func joinNames(aName, bName string, aNames, bNames []string) []string {
 			ret = append(ret, name)
 		}
 	}
+	// The names accumulated in a by earlier joins are still possible after this one.
+	for _, name := range aNames {
+		seen := false
+		for _, r := range ret {
+			seen = seen || r == name
+		}
+		if !seen {
+			ret = append(ret, name)
+		}
+	}
 	return ret
 }
 
